@@ -1,6 +1,7 @@
 import LeptosModel.Proofs.RViewMain
 import LeptosModel.Proofs.RViewShow
 import LeptosModel.Proofs.RViewTop
+import LeptosModel.Proofs.RViewQuiet
 /-!
 # C04 — a mounted reactive view always settles to the render of current state
 
@@ -12,9 +13,14 @@ open Leptos.Reactive
 
 /-! ## `C04_settles` -/
 
-/-- **full statement** (kept visible): for every well-formed program of the modelled grammar, every
-history of writes / polls / disposal, at every idle point the DOM below the mount root is the fresh
-render for the current values. -/
+/-- **full statement** — OPEN (kept visible, not proved): for every well-formed program of the modelled
+grammar, every history of writes / polls / disposal, at every idle point the DOM below the mount root is
+the fresh render for the current values.
+Proved stages: `C04_settles` = `C04_settles_for` (static structure, dynamic leaves, `either`, `<For>`,
+nested arbitrarily, over signals).  Remaining: dynamic parts that read memos (`…_memo`) and `<Show>`
+(`…_show`, a memo over the boolean) — both need convergence lemmas of the reactive core at the level of
+states (tolerating disposed effects and definitions added during the run; `C02_effects_converge_readonly`
+is about whole runs of a fixed program without lifecycle operations).  Covered by correspondence. -/
 def C04_settles_full : Prop :=
   ∀ (p : Program) (ops : List Op), p.wf = true →
     (run p ops).disposed = false → ready (run p ops) = [] →
@@ -22,9 +28,10 @@ def C04_settles_full : Prop :=
 
 /-- **nested dynamic parts over signals** — unconditional: for every program whose definitions are
 signals and whose view is built from static structure (text, `()`, elements, tuples), dynamic leaves
-(`move ||` text, reactive attribute, class and style) and `move || Either` — nested ARBITRARILY (an
-`either` inside the branches of an `either`, dynamic leaves and elements with reactive attributes inside
-branches, …) — all reading signals (through arbitrary expressions with `ite`, i.e. dynamic
+(`move ||` text, reactive attribute, class and style), `move || Either` and `<For>` (keyed lists,
+through the theorems of C11) — nested ARBITRARILY (an `either` or a `<For>` inside the branches of an
+`either`, dynamic leaves and elements with reactive attributes inside branches, …) — all reading
+signals (through arbitrary expressions with `ite`, i.e. dynamic
 dependencies), for EVERY history of signal writes, executor polls in ANY order (including polls of the
 tasks of dropped effects and of effects that are still alive inside a dropped branch), `idle` runs and
 disposal: at every idle point the serialised DOM of the mount root equals the from-scratch render of
@@ -36,6 +43,29 @@ theorem C04_settles (p : Program) (ops : List Op) (hw : p.wf = true) (hs : allSi
   · rw [h.1] at hd; cases hd
   · simp only [Program.wf, Bool.and_eq_true] at hw
     exact h.2.settled hw.2 hidle
+
+/-- **`<For>`** (named stage of `C04_settles_full`): `C04_settles` covers keyed lists — `View.core`
+allows `forKeyed` anywhere, also inside `either` branches and beside other dynamic parts.  The list
+update is `Leptos.Keyed.rebuild`; the proof goes through `C11_build_wf`, `C11_storage_is_to`,
+`C11_dom_order` (`Proofs/RViewFor.lean`: the keyed state stays well-formed and mounted with one `<li>` per
+row, hence the rows in DOM order are the keys last handed to the list).  Selector over signals; still
+open for `<For>`: selectors that read memos, rows with dynamic content. -/
+theorem C04_settles_for (p : Program) (ops : List Op) (hw : p.wf = true) (hs : allSigs p.defs = true)
+    (hc : p.view.core = true) (hd : (run p ops).disposed = false) (hidle : ready (run p ops) = []) :
+    (run p ops).dom = render (run p ops).env p.view :=
+  C04_settles p ops hw hs hc hd hidle
+
+/-- the keyed-list invariant behind it: in a `<For>` state that is well-formed and mounted (`KOK`; holds
+after `buildFor`, kept by `rerunFor`) the rows read off the DOM are the keys of the list -/
+theorem C04_for_rows_are_keys {ks : Keyed.KState} (h : KOK ks) : forRows ks = ks.hashed := forRows_eq h
+
+/-- `<For>` re-run: a row whose key is still in the new list keeps its item — the same `<li>` node -/
+theorem C04_for_keeps_rows (st : St) {ks : Keyed.KState} (texts : List (Nat × Nat)) {keys : List Nat}
+    (h : KOK ks) (hk : keys.Nodup) :
+    KOK (rerunFor st ks texts keys).1 ∧ (rerunFor st ks texts keys).1.hashed = keys ∧
+    ∀ it ∈ Keyed.somes ks.w.storage, it.key ∈ keys →
+      it ∈ Keyed.somes (rerunFor st ks texts keys).1.w.storage :=
+  ⟨rerunFor_kok st texts h hk, rfl, rerunFor_keeps st texts h hk⟩
 
 /-- the special case of views without `either` (kept: `C04_untouched_nodes` is proved for this class) -/
 theorem C04_settles_leaves (p : Program) (ops : List Op) (hw : p.wf = true) (hs : allSigs p.defs = true)
@@ -61,48 +91,48 @@ theorem C04_disposed_stays_empty (p : Program) (ops ops' : List Op) :
 
 /-! ## `C04_untouched_nodes` -/
 
-/-- **parts whose inputs did not change keep their nodes** (dynamic leaves over signals): take any
-idle point of any history, then any further history `ops'` of writes, polls in any order and `idle`
-runs.  Every DOM node below (and including) the mount root that existed at the idle point and none of
-whose governing dynamic parts (`g`: its own reactive attributes / text expression, enclosing and
-directly contained structural parts) had read, at its last run, a signal that `ops'` writes, is still
-there afterwards — the same node id with the same mutation counter (`St.nodes` lists
-`(⟨id, mutation count⟩, governing effects)`).  A `set` counts as a change of its signal whether or not
-the value differs (`RwSignal::set` always notifies). -/
+/-- **parts whose inputs did not change keep their nodes** (static structure, dynamic leaves,
+arbitrarily nested `either`, and `<For>` as ONE dynamic part — all its rows are governed by the list's
+effect; the finer statement for rows whose key stays is `C04_for_keeps_rows` — over signals): take any idle point of any history, then any further history
+`ops'` of writes, polls in any order and `idle` runs.  Every DOM node below (and including) the mount root
+that existed at the idle point and none of whose governing dynamic parts (`g`: its own reactive
+attributes / text expression, the `either`s enclosing it, and the `either`s whose region lies directly
+in its child list) had read, at its last run, a signal that `ops'` writes, is still there afterwards —
+the same node id with the same mutation counter (`St.nodes` lists `(⟨id, mutation count⟩, governing
+effects)`).  A `set` counts as a change of its signal whether or not the value differs
+(`RwSignal::set` always notifies). -/
 theorem C04_untouched_nodes (p : Program) (ops ops' : List Op) (hw : p.wf = true)
-    (hs : allSigs p.defs = true) (hl : p.view.leaves = true)
+    (hs : allSigs p.defs = true) (hc : p.view.core = true)
     (hd : (run p ops).disposed = false) (hidle : ready (run p ops) = []) (hnd : Op.dispose ∉ ops') :
     ∀ n g, (n, g) ∈ (run p ops).nodes →
       (∀ e ∈ g, ∀ id ∈ writes ops', id ∉ ((run p ops).rs.get e).sources) →
       (n, g) ∈ (run p (ops ++ ops')).nodes := by
   intro n g hm hq
-  have h0 : Inv0 p.defs.length p.view (run p ops) := by
-    rcases Inv1.run hw hs hl ops with h | h
+  have hw' := hw
+  simp only [Program.wf, Bool.and_eq_true] at hw'
+  have h0 : InvC p.defs.length p.view (run p ops) := by
+    rcases InvD.run hw hs hc ops with h | h
     · rw [h.1] at hd; cases hd
     · exact h.2
-  obtain ⟨t, hroot, hgood, _⟩ := h0.tree
-  have hsub : ∀ e ∈ g, e ∈ effsOf t := by
+  obtain ⟨t, ht⟩ := h0.tree
+  have hquiet : ∀ e ∈ g, p.defs.length ≤ e ∧ quietIn (writes ops') (run p ops) e := by
     intro e he
-    simp only [St.nodes, hroot, List.mem_cons] at hm
-    rcases hm with hm | hm
-    · rw [(Prod.mk.inj hm).2] at he; exact structEffs_sub t e he
-    · exact nodesOf_sub t n g hm e he
-  have hquiet : ∀ e ∈ g, quietEff p.defs.length (writes ops') (run p ops) e := by
-    intro e he
-    obtain ⟨x, cur, hok⟩ := Good.effOK p.view t hgood e (hsub e he)
-    refine ⟨hok.ke, hq e he, ?_⟩
-    rcases hok.ok with hp | hc
-    · exfalso
-      have : e ∈ ready (run p ops) := by
-        unfold ready
-        refine List.mem_filter.2 ⟨hok.task, ?_⟩
-        simp [hp.2.2, hok.done]
-      rw [hidle] at this; simp at this
-    · exact hc.1
+    obtain ⟨x, cur, hok⟩ := Good.effOK p.view t ht.good e (St.nodes_sub ht.root hm e he)
+    refine ⟨hok.ke, ?_, ?_⟩
+    · rcases hok.ok with hp | hcur
+      · exfalso
+        have : e ∈ ready (run p ops) := by
+          unfold ready
+          refine List.mem_filter.2 ⟨hok.task, ?_⟩
+          simp [hp.2.2, hok.done]
+        rw [hidle] at this; simp at this
+      · exact hcur.1
+    · intro id hid hsub
+      exact hq e he id hid (h0.rinv.exact id e hsub)
   have hrun : run p (ops ++ ops') = ops'.foldl step (run p ops) := by
     simp only [run, List.foldl_append]
   rw [hrun]
-  exact (Quiet.steps hl ops' _ (Quiet.start h0) (fun _ h => h) hnd).keep n g hm hquiet
+  exact ((QuietC.steps hw'.2 hc ops' _ (QuietC.start h0) (fun _ h => h) hnd).keep n g hm hquiet).1
 
 /-- a write never touches the DOM by itself (every program, every view): effects run when polled -/
 theorem C04_set_touches_nothing (st : St) (id : Nat) (v : Int) :
@@ -174,6 +204,56 @@ example : nestProg.wf = true ∧ allSigs nestProg.defs = true ∧ nestProg.view.
     (run nestProg nestOps).dom =
       [.open "div" [.cls "hot" true], .text (.int 2), .close] ∧
     (run nestProg nestOps).dom ≠ (run nestProg []).dom := by decide +kernel
+
+/-- non-vacuity of `C04_untouched_nodes` with nesting: writing signal 1 re-renders the inner `either`
+(new node for its branch) but the `<i>` element beside the outer `either` and the outer structure keep
+their nodes; the `div` (which carries a class over signal 1) is mutated -/
+def nestProg2 : Program :=
+  { defs := [.sig 1, .sig 0],
+    view := .elem "div" [.cls "hot" (.rd true 1)]
+      (.seq (.elem "i" [] (.dynText (.rd true 0)))
+        (.either (.rd true 0) (.either (.rd true 1) (.text "a") (.dynText (.rd true 1))) (.text "-"))) }
+
+example : nestProg2.wf = true ∧ nestProg2.view.core = true ∧ nestProg2.view.leaves = false ∧
+    ready (run nestProg2 [.idle]) = [] ∧ writes [Op.set 1 5, Op.idle] = [1] ∧
+    (run nestProg2 [.idle]).nodes =
+      [(⟨0, 1⟩, []), (⟨1, 2⟩, [2, 4, 5]), (⟨2, 1⟩, []), (⟨3, 0⟩, [3]), (⟨4, 0⟩, [4, 5, 6])] ∧
+    ((run nestProg2 [.idle]).rs.get 3).sources = [0] ∧ ((run nestProg2 [.idle]).rs.get 4).sources = [0] ∧
+    (run nestProg2 ([.idle] ++ [.set 1 5, .idle])).nodes =
+      [(⟨0, 1⟩, []), (⟨1, 5⟩, [2, 4, 5]), (⟨2, 1⟩, []), (⟨3, 0⟩, [3]), (⟨5, 0⟩, [4, 5])] := by decide +kernel
+
+/-- non-vacuity with `<For>`: a keyed list beside an `either` whose left branch is another keyed list;
+rows are reordered, removed and added (`[1,2,3] → [3,1] → [2,4,3,1]`), the inner list appears with a
+branch switch; partial polling in between -/
+def forProg : Program :=
+  { defs := [.sig 0, .sig 0],
+    view := .elem "ul" [.cls "big" (.rd true 0)]
+      (.seq (.forKeyed (.rd true 0) [[1, 2, 3], [3, 1], [2, 4, 3, 1]])
+        (.either (.rd true 1) (.forKeyed (.add (.rd true 0) (.rd true 1)) [[5], [6, 5]]) (.text "-"))) }
+
+def forOps : List Op := [.idle, .set 0 1, .idle, .set 1 1, .set 0 2, .poll 0, .idle]
+
+example : forProg.wf = true ∧ allSigs forProg.defs = true ∧ forProg.view.core = true ∧
+    (run forProg forOps).disposed = false ∧ ready (run forProg forOps) = [] ∧
+    ready (run forProg (forOps.take 6)) ≠ [] ∧
+    (run forProg [.idle]).dom =
+      [.open "ul" [.cls "big" false]] ++ [1, 2, 3].flatMap rowTree ++ [.comment, .text (.lit "-"), .close] ∧
+    (run forProg forOps).dom =
+      [.open "ul" [.cls "big" true]] ++ [2, 4, 3, 1].flatMap rowTree ++ [.comment] ++
+        [6, 5].flatMap rowTree ++ [.comment, .close] := by decide +kernel
+
+/-- … and `C04_untouched_nodes` on it: writing signal 1 switches the `either` to the inner list; the
+rows of the outer list (effect 3, sources `[0]`) keep ids and mutation counters -/
+example :
+    ready (run forProg [.idle]) = [] ∧ writes [Op.set 1 1, Op.idle] = [1] ∧
+    ((run forProg [.idle]).rs.get 3).sources = [0] ∧
+    (run forProg [.idle]).nodes =
+      [(⟨0, 1⟩, []), (⟨1, 5⟩, [2, 3, 4]), (⟨2, 1⟩, [3]), (⟨6, 0⟩, [3]), (⟨3, 1⟩, [3]), (⟨7, 0⟩, [3]),
+       (⟨4, 1⟩, [3]), (⟨8, 0⟩, [3]), (⟨5, 0⟩, [3]), (⟨9, 0⟩, [4])] ∧
+    (run forProg ([.idle] ++ [.set 1 1, .idle])).nodes =
+      [(⟨0, 1⟩, []), (⟨1, 9⟩, [2, 3, 4, 5]), (⟨2, 1⟩, [3]), (⟨6, 0⟩, [3]), (⟨3, 1⟩, [3]), (⟨7, 0⟩, [3]),
+       (⟨4, 1⟩, [3]), (⟨8, 0⟩, [3]), (⟨5, 0⟩, [3]), (⟨10, 1⟩, [4, 5]), (⟨13, 0⟩, [4, 5]),
+       (⟨11, 1⟩, [4, 5]), (⟨14, 0⟩, [4, 5]), (⟨12, 0⟩, [4, 5])] := by decide +kernel
 
 /-! non-vacuity: a program with a reactive attribute, class, style and two dynamic texts with a
 dynamic dependency; a history with partial polling; the hypotheses hold, the DOM changes -/
